@@ -248,7 +248,10 @@ Definition close_cb (s : sys) (thr c : nat) : M :=
   | Some k =>
       match k_ccb k with
       | CbServer =>                                                  (* TcpServer::removeConnection *)
-          if negb (s_srv s) then Fault else                          (* reads loop_ of a destroyed server *)
+          (* reads loop_ of the server.  On an io thread of a destroyed server the pool is still being joined: ~TcpServer
+             has not returned, the storage exists and the hop is queued (it fails when the base loop runs it); on the
+             base thread a destroyed server is freed memory *)
+          if negb (s_srv s) && (thr =? 0) then Fault else
           if thr =? 0 then remove_in_loop s thr c else ret (enq s 0 (TRemove c))
       | CbClient =>                                                  (* TcpClient::removeConnection *)
           if negb (s_cli s) then Fault else
